@@ -9,6 +9,13 @@ from mc import pool, wire, refms
 BODIES = [b"keep;\r\n", b"keep;\n# x\n", b"stop;", b"", b"OK\r\n{5}\r\nNO \"x\"\r\n", b"# \xc3\xa9\r\nkeep;\r\n",
           b"# a\xe2\x80\xa8b\x0cc\xc2\x85d\x1ce\r\nkeep;\r\n",
           b"# moved from c:\\filters\\old\r\nkeep;\r\n"]  # backslashes, no double quote  # U+2028, FF, U+0085, FS are not line ends
+# bodies with k characters that the transfer encodings escape (k around every power of two), one per line, in three mixes; and plain
+# bodies of the same sizes: run under fewer fault placements (ladder_task), addressed by indices after those of BODIES
+LADDER_K = [1, 2, 3, 4, 5, 7, 8, 9, 15, 16, 17, 31, 32, 33, 63, 64, 65, 127, 128, 129, 255, 256, 257, 1000]
+LADDER = ([b"".join(b'# "\r\n' for _ in range(k)) + b"keep;\r\n" for k in LADDER_K]
+          + [b"".join(b"# \\\r\n" for _ in range(k)) + b"keep;\r\n" for k in LADDER_K]
+          + [b"if header :is " + b" ".join((b'"a\\\\b"' if i % 2 else b'"x"') for i in range(k)) + b" { keep; }\r\n" for k in LADDER_K]
+          + [b"#" + b"a" * k + b"\r\nkeep;\r\n" for k in LADDER_K])
 VERBS = ["LISTSCRIPTS", "GETSCRIPT", "PUTSCRIPT", "SETACTIVE", "DELETESCRIPT"]
 ACTIONS = ["NO", "BYE", "SILENCE", "EOF", "DROP-REPLY", "NO-BARE"]  # DROP-REPLY: executed by the server, the reply never arrives
 
@@ -102,7 +109,7 @@ CUT_SPAN = {"quick": 170, "thorough": 400}
 
 def run_case(state, body_i, faults, ns_i=0, form=0, cut=None, lit=0, wfault=None, probe=False, prelude=False):
     names = NAMESETS[ns_i]
-    store, active = build(state, BODIES[body_i], names)
+    store, active = build(state, (BODIES + LADDER)[body_i], names)
     ch = refms.FixedChoices({"list-name-literal": lit, "getscript-quoted": 0}) if lit else None
     srv = refms.RefServer(ch=ch, store=store, active=active, version=False, faults=[(v, 0, a) for v, a in faults])
     srv.status_form = form
@@ -241,10 +248,35 @@ def same_name_cases():
     return n, viols
 
 
+def ladder_task(t):
+    lo, hi = t
+    viols = []
+    n = 0
+    distinct = set()
+    for bi in range(lo, hi):
+        for state in (("present", "absent", "absent"), ("active", "absent", "present"), ("present", "present", "active")):
+            for faults in [(), (("PUTSCRIPT", "NO"),), (("DELETESCRIPT", "NO"),), (("SETACTIVE", "NO"),)]:
+                for lit in (0, 1):
+                    bad, o, srv = run_case(state, bi, faults, 0, 0, None, lit)
+                    n += 1
+                    distinct.add((state, faults, o.key(with_err=False), tuple(sorted(srv.store)), srv.active))
+                    if bad:
+                        body = (BODIES + LADDER)[bi]
+                        viols.append({"property": "C14", "engine": "wire",
+                                      "signature": ["C14", "old=%s new=%s other=%s/ladder" % state, "+".join("%s@%s" % (a, v) for v, a in faults) or "no-fault", bad[0]],
+                                      "what": "emulated rename of a %d-octet body with %d double quotes and %d backslashes from state old=%s new=%s other=%s, faults %r: %s (outcome %s)" % (
+                                          (len(body), body.count(b'"'), body.count(b"\\")) + state + (faults, bad[1], o.brief())),
+                                      "case": {"state": list(state), "body_i": bi, "faults": [list(f) for f in faults], "ns_i": 0, "form": 0, "lit": lit},
+                                      "witness": "state old=%s new=%s other=%s faults=%r body=%r..." % (state + (faults, body[:40])), "observed": o.brief()})
+    return dict(n=n, distinct=len(distinct), violations=viols, sample=None)
+
+
 def run(tier, seed):
     states = initial_states()
     tasks = [([st], tier) for st in states]
     res = pool.run_tasks("checks.c14:task", tasks)
+    nb = len(BODIES)
+    res += pool.run_tasks("checks.c14:ladder_task", [(nb + i, min(nb + i + 6, nb + len(LADDER))) for i in range(0, len(LADDER), 6)])
     # control: with VERSION exactly one RENAMESCRIPT is sent
     viols = []
     srv = refms.RefServer(store={"old": b"keep;\r\n"}, active="old", version=True)
